@@ -180,7 +180,28 @@ def m_hvalue_try_from(ex, args, callee):
     if isinstance(v, SymStr):
         if ex.truth(hv_ok(v.term)): return ex.ok(HV(v))
         return ex.err(Opaque('InvalidHeaderValue'))
+    if isinstance(v, SB):
+        if ex.truth(hv_bytes_ok(v.bs)): return ex.ok(HV(v))
+        return ex.err(Opaque('InvalidHeaderValue'))
     raise Unsupported(f'HeaderValue::try_from {v!r}')
+
+
+_hv_rule = []
+
+
+def hv_bytes_ok(bs):
+    """http::header::value::is_valid for every byte, read from the http crate's source: `b >= 32 && b != 127 || b == b'\\t'`"""
+    if not _hv_rule:
+        import glob, os, re
+        from mirsym.runner import REPO
+        ver = re.search(r'name = "http"\nversion = "([^"]+)"', open(os.path.join(REPO, 'Cargo.lock')).read()).group(1)
+        src = open(glob.glob(os.path.expanduser(f'~/.cargo/registry/src/*/http-{ver}/src/header/value.rs'))[0]).read()
+        m = re.search(r"fn is_valid\(b: u8\) -> bool \{\s*b >= (\d+) && b != (\d+) \|\| b == b'\\t'\s*\}", src)
+        if not m: raise Unsupported('http::header::value::is_valid has changed shape')
+        _hv_rule.extend([int(m.group(1)), int(m.group(2))])
+    lo, ex_ = _hv_rule
+    b8 = lambda b: b if z3.is_expr(b) else z3.BitVecVal(b, 8)
+    return z3.And([z3.Or(z3.And(z3.UGE(b8(b), lo), b8(b) != ex_), b8(b) == 9) for b in bs] or [z3.BoolVal(True)])
 
 
 def m_hm_try_append(ex, args, callee):
